@@ -1,5 +1,6 @@
 (* C13 - Client and server agree on every request and response they exchange.
-   Modelled: 23 request formats (Model/Wire.v) and the SendMessages request with its partitioning, messages and
+   Modelled: 34 request formats (Model/Wire.v: identifier-addressed commands, polling, consumer offsets, partitions, streams, groups, create / update topic,
+   create / update user, change password, login, personal access tokens, flush, get client) and the SendMessages request with its partitioning, messages and
    headers of every kind (Model/WireMsg.v), the polled-messages and consumer-group-details responses (Model/WireResp.v); the journal encoding is covered by C11 (C11_roundtrip,
    C11_accepts_only_journals).  Everything else is exercised end to end by the correspondence check only. *)
 From IggyV Require Import Base.Tactics Base.ListX Base.LE Model.Wire Model.WireMsg Model.WireResp Proofs.WireProofs Proofs.WireMsgProofs Proofs.WireRespProofs.
